@@ -8,6 +8,21 @@ ALL = [f"C{i:02d}" for i in range(1, 21)]
 
 # id -> (technique, level text, level note, design ref)
 CHECKS = {
+    "C20": (
+        "exhaustive enumeration of the token language up to a length, of the 1-edit neighbourhood of a corpus and of "
+        "the printed forms of an algebraic closure, under a harness-side vocabulary monitor",
+        "Every token sequence up to length 5 (6 in thorough) over a 16-token alphabet, concatenated and space "
+        "separated (2.3M strings), every single-character edit of a 200-string corpus, and a hostile list (str and "
+        "bytes) is given to Unit(): only UnitParseError may escape, and the code string handed to eval is parsed "
+        "with ast to assert that every name that would resolve is in the parser's vocabulary and that no import/"
+        "open/os/subprocess audit event fires during evaluation. str() and repr() of every unit in a closure over "
+        "57 atoms are parsed back and compared (expr and hash when coefficient-free); spelling variants of one "
+        "expression must denote equal units.",
+        "The monitor wraps sympy.parsing.sympy_parser.eval_expr (module-global lookup verified) and installs a "
+        "sys.addaudithook; lazy imports of sympy's own submodules are allowed. Byte-level fuzzing is replaced by "
+        "the complete token language and 1-edit neighbourhood.",
+        "DESIGN.md section 6 C20",
+    ),
     "C01": (
         "exhaustive product enumeration operation x call form x operand-kind pair x dimension pair x shape "
         "on the real code, verdict table derived from the statement, operand snapshots before/after",
@@ -48,6 +63,19 @@ CHECKS = {
         "The symbol, listed-alternatives and prefix tables are taken as data; the reading rules are typed from the "
         "statement. Scale of the base symbols themselves is C02's business.",
         "DESIGN.md section 6 C14",
+    ),
+    "C05": (
+        "explicit-state closure of the unit algebra (all atoms, depth 2; depth 3 on a 20-unit alphabet) with a "
+        "three-representation invariant in every reached state and exhaustive law checking on pairs/triples",
+        "From all 145 atomic, 20 prefixed and 6 custom-registry units every product, quotient and 16 rational/float "
+        "powers is formed; in each of the ~66k distinct reached units expr, scale and dimension are re-derived by the "
+        "library's evaluator and by the independent reference parser and must agree. Commutativity, identity, inverse "
+        "and the scale/dimension homomorphism are checked on all ordered pairs; associativity, power-of-power, "
+        "power distribution, simplify and as_coeff_unit on all triples of a 20-unit alphabet; equality/hash on "
+        "families of equal units.",
+        "Law instances where either side refuses (offset and logarithmic units) are skipped, refusal must be "
+        "symmetric. 'Random associativity' is replaced by the complete small-scope enumeration.",
+        "DESIGN.md section 6 C05",
     ),
     "C08": (
         "exhaustive enumeration of all ordered pairs of temperature spellings x operations x call forms "
